@@ -329,6 +329,14 @@ def execute(plan):
                     else:
                         M = arr(op["M"])
                         handed = M.copy()
+                        if sd_ % 5 == 3:
+                            handed = np.asfortranarray(M)                    # column-major, as it comes out of a transpose or of Fortran code
+                            bump(res["probes"], "matrix_handed_over_in_fortran_order")
+                        elif sd_ % 5 == 4:
+                            big_ = np.zeros((M.shape[0], 2 * M.shape[1]), dtype=M.dtype)
+                            big_[:, ::2] = M
+                            handed = big_[:, ::2]                           # a strided view into a larger array
+                            bump(res["probes"], "matrix_handed_over_as_a_strided_view")
                         prev = getattr(m, "handed", None)
                         if op.get("reuse_handed") and prev is not None and prev.shape == M.shape:
                             handed = prev                   # the very same ndarray object as last time
